@@ -6,7 +6,7 @@
    and the result is compared with the abstraction of what the implementation returned ([None] = it raised). *)
 From Coq Require Import List ZArith Bool Arith.
 Import ListNotations.
-Require Import C14.Types C14.gen.Ctors C14.Model C14.Wf.
+Require Import C14.Types C14.gen.Ctors C14.Model C14.Wf C14.Conv.
 
 Fixpoint zl_eqb (a b : list Z) : bool :=
   match a, b with [], [] => true | x :: r, y :: s => Z.eqb x y && zl_eqb r s | _, _ => false end.
@@ -119,3 +119,32 @@ Fixpoint bad_wf (cs : list case) (i : nat) : list nat :=
   | [] => []
   | c :: r => if wf_case c then bad_wf r (S i) else i :: bad_wf r (S i)
   end.
+
+(* the structural specification Conv.conv against the implementation (where its side conditions hold) *)
+Definition conv_case (c : case) : bool :=
+  match c with
+  | (defdt, _, q, Some r) =>
+      let chk (m : meth) (o : arg) := if wfb o && safeb m o then arg_eqb (strip r) (conv defdt m o) else true in
+      match q with
+      | QMeth m o => chk m o
+      | QTo args kd kv o => match to_helper args kd kv with Some (dev, d) => chk (MTo d dev) o | None => true end
+      | _ => true
+      end
+  | _ => true
+  end.
+Definition conv_applies (c : case) : bool :=
+  match c with
+  | (defdt, _, q, Some r) =>
+      match q with
+      | QMeth m o => wfb o && safeb m o
+      | QTo args kd kv o => match to_helper args kd kv with Some (dev, d) => wfb o && safeb (MTo d dev) o | None => false end
+      | _ => false
+      end
+  | _ => false
+  end.
+Fixpoint bad_conv (cs : list case) (i : nat) : list nat :=
+  match cs with
+  | [] => []
+  | c :: r => if conv_case c then bad_conv r (S i) else i :: bad_conv r (S i)
+  end.
+Definition n_conv (cs : list case) : nat := length (filter conv_applies cs).
